@@ -63,12 +63,17 @@ def gen_case(rng, ctx, kind=None):
                 v = pick(rng, [0, 1, 1, 2, 3, 7]) if r2 < 0.7 else int(rng.integers(8, 5001 if kind == "log16" or cfg["max_count"] <= 5000 else 600))
                 if r2 > 0.985:
                     v = pick(rng, [65536, 65537, 65536 + int(rng.integers(0, 1100)), 2**17 + 1, 2**16 - 1])
-            events.append([int(rng.integers(0, 2)), ["add", hx(k), v]])
+            op = ["add", hx(k), v]
+            if kind != "linear" and rng.random() < 0.06:
+                op.append(2048 - int(rng.integers(0, 4)))
+            events.append([int(rng.integers(0, 2)), op])
     strangers = [hx(rand_key(rng, 0, 6)) for _ in range(3)]
     return {"cfg": cfg, "events": events, "strangers": strangers}
 
 
 def run_case(case, ctx, mon):
+    if case.get("type") == "threads":
+        return run_threads(case, ctx, mon)
     cfg = case["cfg"]
     kind = cfg["kind"]
     w, d = cfg["width"], cfg["depth"]
@@ -94,6 +99,9 @@ def run_case(case, ctx, mon):
         E0 = {k: s.query(k) for k in universe}
         N0 = int(s.n_added())
         c0 = int(T0[cellidx[key]].min())
+        if is_log and len(op) > 3:
+            s.rand_ptr = int(op[3])  # place the add so that it consumes the last draws of the current batch
+            mon.count("log_adds_straddling_a_batch_end")
         mon.api(s.add, key, v)
         T1 = s.cms
         E1 = {k: s.query(k) for k in universe}
@@ -148,8 +156,56 @@ def run_case(case, ctx, mon):
     mon.seen("width", w)
 
 
+def run_threads(case, ctx, mon):
+    """Several Python threads add to ONE sketch, each to keys that own private counters: afterwards every key must hold
+    exactly what its thread added and n_added() the total (an add must take effect as a whole)."""
+    import threading
+
+    kind, n_thr, n_adds = case["kind"], case["threads"], case["adds"]
+    cfg = {"kind": kind, "width": 256, "depth": 3}
+    if kind != "linear":
+        cfg.update(max_count=2**32 - 1, num_reserved=(15 if kind == "log8" else 1023))
+    s = state.make(cfg)
+    pr = prober(cfg)
+    rng = np.random.default_rng(case["seed"])
+    keys, used = [], [set() for _ in range(3)]
+    while len(keys) < n_thr:
+        k = bytes(rng.integers(0, 256, 6, dtype=np.uint8))
+        c = pr.cells(k)
+        if all(c[r] not in used[r] for r in range(3)):
+            for r in range(3):
+                used[r].add(c[r])
+            keys.append(k)
+    per = 10 if kind == "log8" else 300  # stay inside the exact range of the log types
+    barrier = threading.Barrier(n_thr)
+
+    def work(k):
+        barrier.wait()
+        for i in range(n_adds):
+            s.add(k, 1)
+            if i % 7 == 0:
+                s.query(k)
+
+    n_adds = min(n_adds, per)
+    ts = [threading.Thread(target=work, args=(k,)) for k in keys]
+    for t in ts:
+        t.start()
+    for t in ts:
+        t.join()
+    for k in keys:
+        mon.check(float(s.query(k)) == float(n_adds), "threads:key-with-private-counters-holds-exactly-its-adds", kind=kind, key=hx(k), got=float(s.query(k)), want=n_adds,
+                  threads=n_thr)
+    mon.check(int(s.n_added()) == n_adds * n_thr, "threads:n_added==total", kind=kind, got=int(s.n_added()), want=n_adds * n_thr)
+    mon.count("thread_stress_cases")
+    mon.count("thread_stress_adds", n_adds * n_thr)
+    mon.nontrivial(True)
+
+
 def gen_cases(ctx):
     rng = ctx.rng("cases")
+    for kind in state.CMS_KINDS:
+        for rep in range(2 if ctx.quick else 6):
+            yield {"type": "threads", "kind": kind, "threads": 8, "adds": 300, "seed": int(rng.integers(0, 2**31))}
     n = 3000 if ctx.quick else 10**9
     for i in range(n):
         yield gen_case(rng, ctx, state.CMS_KINDS[i % 3])
@@ -169,3 +225,5 @@ def floors(mon, ctx):
     mon.floor("cut-short adds (linear)", mon.counters["cut_short_adds:linear"], 10)
     mon.floor("log adds in the reserved range", mon.counters["log_adds_in_reserved_range"], 200)
     mon.floor("log adds in the probabilistic range", mon.counters["log_adds_probabilistic"], 200)
+    mon.floor("log adds straddling the end of a draw batch", mon.counters["log_adds_straddling_a_batch_end"], 50)
+    mon.floor("thread stress cases", mon.counters["thread_stress_cases"], 6)
